@@ -565,7 +565,21 @@ def raw_sites(ctx):
                     continue
                 if (rel, q.split(".")[0] if rel == DISK else q, kind[1]) in EXEMPT_SITES:
                     continue
-                out.append((c, kind[0], kind[1]))
+                # a call written inside a generator expression runs where the generator is CONSUMED: if the generator is
+                # bound to a name, the sites to protect are the statements that use that name
+                ge = [a for a in ancestors(c) if isinstance(a, ast.GeneratorExp)]
+                moved = False
+                if ge:
+                    top = ge[-1]
+                    pst = parent(top)
+                    if isinstance(pst, ast.Assign) and len(pst.targets) == 1 and isinstance(pst.targets[0], ast.Name):
+                        v_ = pst.targets[0].id
+                        uses = [n for n in ast.walk(fn) if isinstance(n, ast.Name) and n.id == v_ and isinstance(n.ctx, ast.Load)]
+                        for u in uses:
+                            out.append((u, kind[0], kind[1] + " (lazily, where the generator `%s` is consumed)" % v_))
+                            moved = True
+                if not moved:
+                    out.append((c, kind[0], kind[1]))
             for r in nodes_of_type(fn, ast.Raise):
                 if r.exc is not None and isinstance(r.exc, ast.Call) and call_name(r.exc) == "KeyError" and rel == SB:
                     out.append((r, "KeyError", "raise KeyError (entry vanished)"))
@@ -801,6 +815,29 @@ def fastpath_coherent(ctx):
     for fn, c in writers:
         inv = [n for n in ast.walk(fn) if invalidates(n)]
         inserts = [n for n in ast.walk(fn) if isinstance(n, ast.Subscript) and dotted(n.value) == "_FUNCTION_HASHES" and isinstance(n.ctx, ast.Store)]
+        if not inserts and not inv:
+            # the writer leaves the table to its callers: then EVERY caller must evict the namesakes after the write (the
+            # stored source has just been replaced; entries of other live functions with this id describe the old one)
+            def evicts(f2, depth=0):
+                if any(invalidates(n) for n in ast.walk(f2)):
+                    return True
+                return False
+            callers = [(q2, f2, c2) for q2, f2 in ctx.repo.mod(MEM).funcs.items() for c2 in calls_in(f2) if call_name(c2) == "self." + fn.name]
+            ctx.need(callers, "%s has no caller" % fn._qualname)
+            for q2, f2, c2 in callers:
+                g2 = cfg_of(f2)
+                after = []
+                for c3 in calls_in(f2):
+                    nm3 = call_name(c3) or ""
+                    if invalidates(c3):
+                        after.append(c3)
+                    elif nm3.startswith("self.") and ("MemorizedFunc." + nm3[5:]) in ctx.repo.mod(MEM).funcs and evicts(ctx.repo.mod(MEM).funcs["MemorizedFunc." + nm3[5:]]):
+                        after.append(c3)
+                ok_ = bool(after) and g2.every_path_from(g2.nodes_of(c2), g2.nodes_of_all(after), None, skip_exc=True)
+                ctx.check(ok_, c2, "%s evicts the fast-path entries of the namesakes after it rewrote the stored source" % q2,
+                          "%s rewrites func_code.py (through %s) but does not evict the fast-path entries of other live functions with the same identifier: a still-referenced older definition "
+                          "keeps passing the fast path and stores / is served values of the other definition" % (q2, fn._qualname))
+            continue
         if not inserts:
             ctx.ok(c, "writer of the stored source does not populate the fast-path table")
             continue
@@ -870,7 +907,20 @@ def code_hash(ctx):
     rets = nodes_of_type(f, ast.Return)
     ctx.need(rets and isinstance(rets[0].value, ast.Tuple), "_hash_func does not return a tuple")
     txt = [unparse(_resolve_local(e, f)) for e in rets[0].value.elts]
-    ctx.check(any("__code__" in t and t.startswith("hash(") for t in txt), rets[0], "the fast-path key includes a hash of func.__code__ (code-object swap is detected)", "fast-path key %s ignores the code object" % txt)
+    whole = ("hash(getattr(self.func, '__code__', None))", "hash(self.func.__code__)", "hash(self.func.__code__) if hasattr(self.func, '__code__') else None")
+    def resolved(t_):
+        # one level of local definitions inside the hashed expression (`code = getattr(...)`; `hash(code)`)
+        return t_
+    elts = []
+    for e in rets[0].value.elts:
+        e2 = _resolve_local(e, f)
+        if isinstance(e2, ast.Call) and call_name(e2) == "hash" and e2.args and isinstance(e2.args[0], ast.Name):
+            inner = _resolve_local(e2.args[0], f)
+            elts.append("hash(%s)" % unparse(inner))
+        else:
+            elts.append(str(unparse(e2)))
+    ctx.check(any(t in whole for t in elts), rets[0], "the fast-path key includes a hash of the whole code object func.__code__ (a swapped code object is detected, also when only its constants or names differ)",
+              "fast-path key %s does not hash the code object itself: a code object that differs only in a constant or a referenced name has the same bytecode, so the swap goes unnoticed" % elts)
     ctx.check("id(self.func)" in txt, rets[0], "and the identity of the function object")
     p = M(ctx, "MemorizedFunc.func_code_info")
     tests = [n for n in ast.walk(p) if isinstance(n, ast.Compare) and "id(self.func.__code__)" in unparse(n) and isinstance(n.ops[0], ast.NotEq)]
@@ -997,6 +1047,21 @@ def _conj(test):
 
 def all_limits(ctx):
     f, lp = _sel_loop(ctx)
+    # an empty inventory (a concurrent clear emptied the store, or nothing was ever cached) is answered before anything is
+    # computed FROM the items: min()/max() of an empty sequence raise ValueError, items[0] raises IndexError
+    g_e = cfg_of(f)
+    inv_name = None
+    for a_ in nodes_of_type(f, ast.Assign):
+        if isinstance(a_.value, ast.Call) and call_name(a_.value) == "self.get_items" and isinstance(a_.targets[0], ast.Name):
+            inv_name = a_.targets[0].id
+    if inv_name:
+        risky = [c_ for c_ in calls_in(f) if call_name(c_) in ("min", "max") and len(c_.args) == 1 and not c_.keywords and inv_name in names_in(c_.args[0])]
+        risky += [n_ for n_ in ast.walk(f) if isinstance(n_, ast.Subscript) and isinstance(n_.ctx, ast.Load) and dotted(n_.value) == inv_name and isinstance(n_.slice, ast.Constant)]
+        for r_ in risky:
+            facts = g_e.fact_set(g_e.nodes_of(r_))
+            ok_ = (inv_name, True) in facts or ("len(%s) == 0" % inv_name, False) in facts or ("0 < len(%s)" % inv_name, True) in facts
+            ctx.check(ok_, r_, "`%s` is evaluated only for a non-empty inventory" % unparse(r_, 50),
+                      "`%s` is evaluated without the inventory having been tested for emptiness: on an empty store (a concurrent clear, nothing cached yet) reduce_size raises instead of doing nothing" % unparse(r_, 60))
     stops = [n for n in lp.body if isinstance(n, ast.If) and any(isinstance(s, ast.Break) for s in n.body)]
     ctx.need(stops, "no stop test")
     conj = [unparse(c) for c in _conj(stops[0].test)]
